@@ -73,7 +73,7 @@ def rule_titles(rep: Report, rid="C19.escape", rid_col="C19.col", rid_roles="C19
         I = m.I
         rep.used_function(m.fi.qualname)
         line, trimmed, raw = mr.line_terms(m)
-        dialect = ("attr", m.selft, "dialect")
+        dialect = ("attr", m.selft, N.DIALECT)
         prefix_name = "KEYWORD_PREFIX_BULLET" if kind == "StepLine" else "KEYWORD_PREFIX_HEADER"
         suffix = "" if kind == "StepLine" else ":"
         sinks = [(sn, ctx) for sn, ctx in m.sinks if sn[1].get("matched_type") == const(kind) and sn[1].get("keyword") is not None]
@@ -126,7 +126,7 @@ def rule_titles(rep: Report, rid="C19.escape", rid_col="C19.col", rid_roles="C19
             rep.ob(rid_col, f"match_{kind}: column = line indent + length of the prefix (group 1) + 1", a.get("indent") is not None and lin_eq(a["indent"], want_ind), **kw,
                    expected="indent + len(match.group(1))", found=fmt(a.get("indent"), I)[-120:] if a.get("indent") else "default")
         # the verdict depends on the line alone: no matcher state decides whether a well-formed line is recognised
-        state_atoms = [t for t in nf.subterms(m.rv) if t[0] == "attr" and t[1] == m.selft and t[2] != "dialect"]
+        state_atoms = [t for t in nf.subterms(m.rv) if t[0] == "attr" and t[1] == m.selft and t[2] != N.DIALECT]
         searches = [t for t in nf.subterms(m.rv) if t[0] == "call" and t[1] == "re.search"]
         rep.ob(rid_roles, f"Markdown match_{kind}: whether the line is recognised depends only on the line and the dialect (not on earlier lines)",
                not state_atoms and bool(searches), **mr._kw(m), expected="result = the keyword search matched",
